@@ -34,8 +34,14 @@ type world struct {
 	synthSrc  map[string]string
 	globals   map[string][]uint64
 	mirrorMsg []string
+	fieldInv  map[string]*FieldInvRef
 
 	fieldCallHook func(x *ctx, st *state, fr *frame, fnv val, args []val, rt types.Type) ([]outcome, bool)
+}
+
+type FieldInvRef struct {
+	fi  *FieldInv
+	pkg string
 }
 
 const modulePath = "github.com/maypok86/otter/v2"
@@ -173,6 +179,12 @@ func loadWorld(repo, verifDir string) (*world, error) {
 			} else {
 				w.contracts[contractKeyOf(c)] = c
 			}
+		}
+	}
+	w.fieldInv = map[string]*FieldInvRef{}
+	for _, cf := range w.files {
+		for _, fi := range cf.FieldInvs {
+			w.fieldInv["G:"+strings.TrimPrefix(fi.Ghost, "ghost_")] = &FieldInvRef{fi, cf.PkgPath}
 		}
 	}
 	w.itfKeys = []string{"G:tbl", "G:expiresAt", "G:refreshableAt", "G:state"}
